@@ -6,6 +6,7 @@
 package c04
 
 import (
+	"io"
 	"encoding/json"
 	"fmt"
 	"os"
@@ -182,6 +183,138 @@ func streamCase(w streamWit) (kind, detail string) {
 		if !rd.OK() || rd.Data != data {
 			kind, detail = "reader-mismatch", fmt.Sprintf("Reader with buffer %d: err=%q panic=%q returned %d bytes, stored %d: %s", w.Buf, rd.Err, rd.Panic, len(rd.Data), len(data), shortDiff(rd.Data, data))
 			return
+		}
+	})
+	if kind == "" && (res.Deadlock || res.Horizon) {
+		kind, detail = "blocks-forever", fmt.Sprint(res.Blocked)
+	}
+	if kind == "" && len(res.Panics) > 0 {
+		kind, detail = "panic", res.Panics[0].Value
+	}
+	return
+}
+
+// pairWit: two writers (then two readers) open at the same time, used in alternation with ONE
+// caller buffer that is overwritten after every call.
+type pairWit struct {
+	B1, B2 string
+	D1, D2 string
+	Order  string
+}
+
+func expandBig(s string) string {
+	var n int
+	if _, err := fmt.Sscanf(s, "big(%d)", &n); err == nil {
+		return big(n)
+	}
+	return s
+}
+
+func pairCase(w pairWit) (kind, detail string) {
+	d1, d2 := expandBig(w.D1), expandBig(w.D2)
+	res := fsx.RunSeq(func() {
+		fs1, done1 := newBackend(w.B1)
+		defer done1()
+		fs2 := fs1
+		if w.B2 != w.B1 {
+			var done2 func()
+			fs2, done2 = newBackend(w.B2)
+			defer done2()
+		}
+		defer func() {
+			if p := recover(); p != nil {
+				kind, detail = "panic", fmt.Sprint(p)
+			}
+		}()
+		w1, err := fs1.Writer("one.bin")
+		if err != nil {
+			kind, detail = "writer-failed", err.Error()
+			return
+		}
+		w2, err := fs2.Writer("two.bin")
+		if err != nil {
+			kind, detail = "writer-failed", err.Error()
+			return
+		}
+		buf := make([]byte, 0, 4096)
+		i1, i2 := 0, 0
+		put := func(wr io.Writer, data string, pos *int, n int) bool {
+			if *pos >= len(data) {
+				return true
+			}
+			end := *pos + n
+			if end > len(data) {
+				end = len(data)
+			}
+			buf = append(buf[:0], data[*pos:end]...)
+			k, err := wr.Write(buf)
+			for i := range buf {
+				buf[i] = '#'
+			}
+			if err != nil || k != end-*pos {
+				kind, detail = "writer-failed", fmt.Sprintf("Write returned %d, %v", k, err)
+				return false
+			}
+			*pos = end
+			return true
+		}
+		for i1 < len(d1) || i2 < len(d2) {
+			if !put(w1, d1, &i1, 4096) || !put(w2, d2, &i2, 1500) {
+				return
+			}
+		}
+		var e1, e2 error
+		if w.Order == "close-1-2" {
+			e1, e2 = w1.Close(), w2.Close()
+		} else {
+			e2, e1 = w2.Close(), w1.Close()
+		}
+		if e1 != nil || e2 != nil {
+			kind, detail = "writer-failed", fmt.Sprintf("Close: %v / %v", e1, e2)
+			return
+		}
+		// two readers in alternation, small and large buffer
+		r1, err1 := fs1.Reader("one.bin")
+		r2, err2 := fs2.Reader("two.bin")
+		if err1 != nil || err2 != nil {
+			kind, detail = "reader-failed", fmt.Sprintf("%v / %v", err1, err2)
+			return
+		}
+		var g1, g2 []byte
+		b1, b2 := make([]byte, 7), make([]byte, 4096)
+		end1, end2 := false, false
+		for guard := 0; (!end1 || !end2) && guard < 200000; guard++ {
+			if !end1 {
+				n, err := r1.Read(b1)
+				g1 = append(g1, b1[:n]...)
+				if err != nil {
+					end1 = true
+					if err != io.EOF {
+						kind, detail = "reader-failed", err.Error()
+						return
+					}
+				}
+			}
+			if !end2 {
+				n, err := r2.Read(b2)
+				g2 = append(g2, b2[:n]...)
+				if err != nil {
+					end2 = true
+					if err != io.EOF {
+						kind, detail = "reader-failed", err.Error()
+						return
+					}
+				}
+			}
+		}
+		r1.Close()
+		r2.Close()
+		if string(g1) != d1 {
+			kind, detail = "content-differs", fmt.Sprintf("two writers open at once on %s and %s (one re-used caller buffer), then two readers in alternation: one.bin (%d bytes written) reads %d bytes: %s", w.B1, w.B2, len(d1), len(g1), shortDiff(string(g1), d1))
+			return
+		}
+		if string(g2) != d2 {
+			kind, detail = "content-differs", fmt.Sprintf("two writers open at once on %s and %s (one re-used caller buffer), then two readers in alternation: two.bin (%d bytes written) reads %d bytes: %s", w.B1, w.B2, len(d2), len(g2), shortDiff(string(g2), d2))
 		}
 	})
 	if kind == "" && (res.Deadlock || res.Horizon) {
@@ -634,6 +767,33 @@ func run(c *fw.Ctx) {
 			}
 		}
 	}
+	// ---- part A2: two streams open at the same time on one backend (and across two backends) ----
+	for _, b1 := range backends {
+		for _, b2 := range backends {
+			for _, d := range [][2]string{{"x", "yz"}, {"", "abc"}, {big(5000), "s"}, {big(40000), big(33000)}} {
+				for _, order := range []string{"close-1-2", "close-2-1"} {
+					item++
+					if !c.Mine(item) {
+						continue
+					}
+					pw := pairWit{b1, b2, d[0], d[1], order}
+					c.R.Evaluations++
+					c.Count("stream_pair_cases", 1)
+					if kind, detail := pairCase(pw); kind != "" {
+						pws := pw
+						if len(pws.D1) > 64 {
+							pws.D1 = fmt.Sprintf("big(%d)", len(pw.D1))
+						}
+						if len(pws.D2) > 64 {
+							pws.D2 = fmt.Sprintf("big(%d)", len(pw.D2))
+						}
+						report("C04/stream-pair/"+kind+"/"+b1+"+"+b2, "after Close the file content is exactly the concatenation of the chunks; a reader returns exactly the stored bytes", detail, map[string]interface{}{"pair": pws},
+							func() bool { k2, _ := pairCase(pw); return k2 == kind })
+					}
+				}
+			}
+		}
+	}
 	// ---- part B + C: copy helpers, fault-free and with every single failing call ----
 	cases := helperCases()
 	for _, sb := range backends {
@@ -832,9 +992,16 @@ func replay(wj json.RawMessage) (*fw.Violation, error) {
 	var w struct {
 		Stream *streamWit `json:"stream"`
 		Copy   *copyWit   `json:"copy"`
+		Pair   *pairWit   `json:"pair"`
 	}
 	if err := json.Unmarshal(wj, &w); err != nil {
 		return nil, err
+	}
+	if w.Pair != nil {
+		if kind, detail := pairCase(*w.Pair); kind != "" {
+			return &fw.Violation{Property: "C04", Clause: "stream byte-exactness", Signature: "C04/stream-pair/" + kind + "/replay", Detail: detail}, nil
+		}
+		return nil, nil
 	}
 	if w.Stream != nil {
 		if kind, detail := streamCase(*w.Stream); kind != "" && kind != "setup" {
@@ -864,7 +1031,7 @@ func replay(wj json.RawMessage) (*fw.Violation, error) {
 
 func init() {
 	fw.Register(&fw.Check{ID: "C04", Level: "fault_enumeration",
-		Rule: "streams: backends{mem,disk,enc-mem,enc-disk,cache-mem} x contents{'', 'x', 'xyz', 5KiB} x every split into <=3 chunks (incl. empty chunks; fixed cut points for the long content) x previous destination{absent,empty,shorter,longer,equal,directory} x read buffers{1,2,3,4096}; copy helpers {fshelper.Copy, Copier.Do(dir), Copier.Do(file), StreamCopy} x 5 tree shapes (one with a 70 KiB file, i.e. several rounds of the 32 KiB copy loop) x all 25 source/destination backend pairs, fault-free over 5 destination pre-states (empty, same paths with older longer/shorter content, unrelated nodes, regular files where the source has directories, directories where the source has files: nil result => every source node present with its kind and bytes) and with EVERY single numbered call (open/Read/Write/Close/MkdirAll/ReadDir/IsFile/IsDir/Filespace, on source and destination; error and short-write variants) failing, for encrypted backends also with the failing layer below the encryption; thorough adds every pair of failing calls (memory) and preemption bound 2 for the concurrent tree copy. distinct = cases; all run the real code",
+		Rule: "streams: backends{mem,disk,enc-mem,enc-disk,cache-mem} x contents{'', 'x', 'xyz', 5KiB} x every split into <=3 chunks (incl. empty chunks; fixed cut points for the long content) x previous destination{absent,empty,shorter,longer,equal,directory} x read buffers{1,2,3,4096}; two writers (then two readers) open at the same time on every backend pair, fed in alternation from one re-used caller buffer, both close orders, contents up to 40 KiB; copy helpers {fshelper.Copy, Copier.Do(dir), Copier.Do(file), StreamCopy} x 5 tree shapes (one with a 70 KiB file, i.e. several rounds of the 32 KiB copy loop) x all 25 source/destination backend pairs, fault-free over 5 destination pre-states (empty, same paths with older longer/shorter content, unrelated nodes, regular files where the source has directories, directories where the source has files: nil result => every source node present with its kind and bytes) and with EVERY single numbered call (open/Read/Write/Close/MkdirAll/ReadDir/IsFile/IsDir/Filespace, on source and destination; error and short-write variants) failing, for encrypted backends also with the failing layer below the encryption; thorough adds every pair of failing calls (memory) and preemption bound 2 for the concurrent tree copy. distinct = cases; all run the real code",
 		Run: run, Replay: replay,
 		Assumptions: []string{"fault positions are the calls crossing the Filespace/Reader/Writer interfaces (harness-side wrapper)", "a bool query 'fails' by answering false", "fshelper.Copy runs under the controlled scheduler: default schedule for the fault sweep, bounded preemptions for the fault-free case"}})
 }
